@@ -512,6 +512,30 @@ X_CommitStep_C ==
     /\ \A x \in Objects(Post) : \A e \in DPost.tree[x] : ~e.st
     /\ \A b \in Core!Blocks(NewItems) : \A c \in b.changes : \E e \in DPost.tree[c.o] : e.rev = c.rev /\ e.par = c.prev
 
+\* the object-level API: create_object / update_object / delete_object / remove_object
+ObjOp == Acting /\ E.op \in {"ObjCreate", "ObjUpdate", "ObjDelete", "ObjRemove"} /\ OkRes /\ Has2
+X_ObjStep_A == ObjOp
+X_ObjStep_C ==
+    LET x == E.a.o
+        had == x \in Objects(pre)
+        ne == IF x \in Objects(Post) THEN NewEntries(x) ELSE {}
+    IN /\ \A y \in Objects(Post) \ {x} : y \in Objects(pre) /\ DPost.tree[y] = dpre.tree[y]   \* no other object is touched
+       /\ Post.items = pre.items
+       /\ CASE E.op = "ObjCreate" ->          \* at most one new creation revision, staged
+                 /\ x \in Objects(Post) /\ Cardinality(ne) <= 1
+                 /\ \A e \in ne : e.st /\ e.par = NoRev /\ TIdx(e.rev) = 1
+            [] E.op = "ObjUpdate" ->          \* at most one new revision: a creation, or a child of the old winner
+                 /\ x \in Objects(Post) /\ Cardinality(ne) <= 1
+                 /\ \A e \in ne : e.st /\ (IF had THEN e.par = pre.winner[x] ELSE e.par = NoRev)
+            [] E.op = "ObjDelete" ->          \* a deletion child of the old winner, unless it already is one / is unknown
+                 /\ (had = (x \in Objects(Post)))
+                 /\ Cardinality(ne) <= 1
+                 /\ \A e \in ne : e.st /\ TIsDel(e.rev) /\ e.par = pre.winner[x]
+            [] OTHER ->                       \* remove_object: staged revisions dropped; the object vanishes if nothing was committed
+                 /\ (x \in Objects(Post)) = (had /\ Core!Unstaged(dpre.tree[x]) # {})
+                 /\ (x \in Objects(Post) => Core!Unstaged(DPost.tree[x]) = Core!Unstaged(dpre.tree[x])
+                                             /\ \A e \in DPost.tree[x] : e.st => TIsDel(e.rev))
+
 (* C19 — identifiers are canonical (system level) *)
 C19_Canonical_A == Acting /\ HasObs(Post)
 C19_Canonical_C ==
@@ -540,7 +564,7 @@ Names == <<"C08_Returns", "C05_WinnerRule", "C05_TreeFromBlocks", "C02_AppliedCo
            "C10_NoAlteredContent", "C12_NoDocChange", "C14_Travel", "C14_Retrievable", "C15_CommitCleans",
            "C15_Guards", "C15_Unstage", "C15_ExportReplay", "C19_Canonical", "C19_LeafOrderTotal", "C09_RetryDurable", "D_FrameStorage", "D_FrameMemory",
            "X_UpdateStep", "X_ResolveStep", "X_ResolveRefused", "X_MeldStep", "X_UnstageStep", "X_CommitStep",
-           "C15_StageComplete">>
+           "C15_StageComplete", "X_ObjStep">>
 
 AllChecks ==
     /\ Chk(1, Names[1], C08_Returns_A, C08_Returns_C)
@@ -591,6 +615,7 @@ AllChecks ==
     /\ Chk(46, Names[46], X_UnstageStep_A, X_UnstageStep_C)
     /\ Chk(47, Names[47], X_CommitStep_A, X_CommitStep_C)
     /\ Chk(48, Names[48], C15_StageComplete_A, C15_StageComplete_C)
+    /\ Chk(49, Names[49], X_ObjStep_A, X_ObjStep_C)
 
 \* the same predicates as individually named invariants (MeldaTraceStrict.cfg)
 C08_Returns == C08_Returns_A => C08_Returns_C
